@@ -518,3 +518,27 @@ func vIsGCMOpened(out []byte) bool {
 	}
 	return true
 }
+
+// vB64Str: a string the code will base64-decode: real base64 of the solver's decoded bytes, or not base64.
+func vB64Str(name string) string {
+	n := vxFresh(name)
+	if e, _ := vx.inputs[n+".empty"].(bool); e {
+		return ""
+	}
+	if ok, _ := vx.inputs[n+".ok"].(bool); !ok {
+		return "%%%not-base64%%%"
+	}
+	dec, _ := vx.inputs[n+".dec"].(string)
+	b := []byte(dec)
+	L := int(vxI64(n + ".declen"))
+	for len(b) < L {
+		b = append(b, byte('a'+len(b)%26))
+	}
+	if L >= 0 && L < len(b) {
+		b = b[:L]
+	}
+	if len(b) == 0 {
+		return "\n" // a non-empty string that base64-decodes to nothing
+	}
+	return base64.StdEncoding.EncodeToString(b)
+}
